@@ -14,6 +14,10 @@ def gen_tables(chk):
     rng = chk.rng
     out = []
     n = 500 if chk.tier == "quick" else 8000
+    # every single-bit change of the identifier of every key of the pool (one-key tables), both sites
+    for k in KEYS:
+        for bit in range(256):
+            out.append(("root" if bit % 2 else "delegations", [{"key": k}], "bitflip", 0, bit))
     for _ in range(n):
         nk = rng.randint(1, 4)
         ks = rng.sample(KEYS, nk)
@@ -31,8 +35,8 @@ def gen_tables(chk):
 
 def run(chk):
     chk.rule = ("key tables of 1-4 keys (Ed25519 hex, ECDSA, RSA PEM; with unknown extra members in the key and in "
-                "keyval) in root.json and in a delegations block, with one identifier altered: bit flip in the first "
-                "two bytes, swapped with another key's, truncated, odd length, non-hex, respelled in upper / mixed "
+                "keyval) in root.json and in a delegations block, with one identifier altered: every single-bit flip (one-key "
+                "tables, every key of the pool) and flips in the first two bytes, swapped with another key's, truncated, odd length, non-hex, respelled in upper / mixed "
                 "case, duplicated in the same / other case; Decoded<Hex|RsaPem|EcdsaPem> against the codec models on "
                 "random byte strings of length 0-700; key id stability over re-serialise / re-parse; non-trivial = "
                 "an identifier is altered or the codec input is non-empty; distinct by case")
